@@ -27,6 +27,13 @@ CheckDmOK(e) == LET M == MatMul(e.D, e.S) IN
   /\ e.accepted = (\A i \in 1..Len(e.spec) : e.spec[i] * e.k >= e.lo /\ e.spec[i] * e.k <= e.hi)
 \* the 1-D overlap kernel of the code on the integer lattice (p = 1/2)
 Kernel1dOK(e) == e.value = OS(e.n1, e.n2, e.pa, e.pb) /\ e.exact
+\* a Cartesian primitive pair on the lattice through the public overlap function: exp(R^2/8) sqrt(D0 D1) S = Kx Ky Kz
+Kernel3dOK(e) == /\ e.exact
+                 /\ e.value = OS(e.na[1], e.nb[1], e.pa[1], 0 - e.pa[1]) * OS(e.na[2], e.nb[2], e.pa[2], 0 - e.pa[2])
+                               * OS(e.na[3], e.nb[3], e.pa[3], 0 - e.pa[3])
+\* equivariance: after the TLC-generated action sequence the identity-labelled, sign-corrected matrix is unchanged
+EquivOK(e) == e.same /\ e.ref_same
+ReferenceOK(e) == e.same /\ e.sym /\ e.psd /\ e.transpose
 Step ==
   /\ l <= Len(Traces[tid])
   /\ LET e == Traces[tid][l] IN
@@ -35,7 +42,12 @@ Step ==
           [] e.op = "Volume" -> VolumeOK(e)
           [] e.op = "Naturals" -> NaturalsOK(e)
           [] e.op = "CheckDm" -> CheckDmOK(e)
-          [] e.op = "Kernel1d" -> Kernel1dOK(e)) = TRUE
+          [] e.op = "Kernel1d" -> Kernel1dOK(e)
+          [] e.op = "Kernel3d" -> Kernel3dOK(e)
+          [] e.op = "Equiv" -> EquivOK(e)
+          [] e.op = "Reference" -> ReferenceOK(e)
+          [] e.op = "Screening" -> e.same
+          [] e.op = "Rejects" -> e.r = "rejected") = TRUE
   /\ l' = l + 1 /\ UNCHANGED tid
   /\ TLCSet(tid, IF TLCGet(tid) < l THEN l ELSE TLCGet(tid))
 TSpec == TInit /\ [][Step]_tvars
